@@ -1,6 +1,7 @@
 package props
 
 import (
+	"fmt"
 	"go/ast"
 	"go/constant"
 	"go/token"
@@ -22,7 +23,8 @@ func init() {
 			"the newer or only copy of a node point / edge point is sent to the side that lacks it, a child found on one side only is handed to the transfer function towards the other side, a child whose hashes differ is compared recursively; " +
 			"R3 a transfer function lists the children of the node it sends on the side the node comes from, and every call hands it a node fetched from that side; " +
 			"R4 the two child listings of the recursive descent take the same (type, includeDeleted) arguments and include deleted children, since the stored hash ranges over tombstoned edges; " +
-			"R5 every point subscription of the sync client forwards the decoded (id[, parent], points) unchanged to the other instance. " +
+			"R5 every point subscription of the sync client forwards the decoded (id[, parent], points) unchanged to the other instance; " +
+			"R6 the comparing function returns success only after it fetched the node from both instances (no shortcut decided from local state). " +
 			"Not decided: message loss and ordering on NATS, reconnect timing, convergence over histories, the discovery handshake for nodes created upstream, the undelete special case, scenarios with more than two entries per list.",
 		Assumptions: []string{
 			"a point that is older than or equal to the stored one is ignored by the receiving store (C01), hence superfluous sends are harmless and only missing ones are reported",
@@ -1196,6 +1198,73 @@ func (m *c02Model) findCompare() {
 }
 
 // ---------------------------------------------------------------------------
+// R6 no success return before both copies were fetched
+
+// checkBothFetches: in the comparing function every exit that returns a nil
+// error lies behind both the LOCAL and the REMOTE fetch of the node.  A
+// success return decided from local state alone skips the comparison the
+// catch-up exists for: an upstream change that real-time delivery missed is
+// then never repaired.  Exits with a non-nil error are exempt.  Paths are
+// followed only until both fetches were called.
+func (m *c02Model) checkBothFetches(r6 *kit.Rule) {
+	c := m.c
+	f := m.F
+	o := r6.Ob(f, m.fetchU, "success exits follow both fetches", "every exit of the comparing function that returns a nil error has fetched the node over the LOCAL and over the REMOTE connection")
+	st := &kit.Std{F: f}
+	done := 0
+	st.OnCall = func(call *ast.CallExpr, n ast.Node, s kit.S) []kit.S {
+		switch call {
+		case m.fetchL:
+			s = s.Set("fl", "1")
+		case m.fetchU:
+			s = s.Set("fu", "1")
+		default:
+			return nil
+		}
+		if s.Get("fl") == "1" && s.Get("fu") == "1" {
+			done++
+			return []kit.S{} // obligation met on every continuation
+		}
+		return []kit.S{s}
+	}
+	res := c.P.Graph(f).Run(kit.NewS(), st.Client())
+	if res.Overflow {
+		c.Fatalf("R6: state overflow in %s", f.Name)
+	}
+	if done == 0 {
+		o.Undecided("no path reaches both fetches")
+		return
+	}
+	missing := func(s kit.S) string {
+		switch {
+		case s.Get("fl") != "1" && s.Get("fu") != "1":
+			return "either instance"
+		case s.Get("fu") != "1":
+			return "the REMOTE instance"
+		}
+		return "the LOCAL instance"
+	}
+	undecided := ""
+	for _, e := range res.Exits {
+		if e.Return == nil {
+			continue // panic / no-return call
+		}
+		switch st.ReturnsNil(e.Return, e.State) {
+		case "nil":
+			o.Violation("`%s` at %s reports success without having fetched the node from %s: the catch-up is skipped on the strength of state that cannot reflect a change accepted there, so a write that real-time delivery missed is never repaired", f.Str(e.Return), f.At(e.Return), missing(e.State)).WithPath(res.PathTo(e))
+			return
+		case "unknown":
+			undecided = fmt.Sprintf("`%s` at %s returns an error value of unknown nil-ness before the node was fetched from %s", f.Str(e.Return), f.At(e.Return), missing(e.State))
+		}
+	}
+	if undecided != "" {
+		o.Undecided("%s", undecided)
+		return
+	}
+	o.OK("%d exit(s) before the second fetch, all with a non-nil error; both fetches reached on %d path state(s)", len(res.Exits), done)
+}
+
+// ---------------------------------------------------------------------------
 // R4 child listings
 
 type c02Listing struct {
@@ -1828,6 +1897,7 @@ func runC02(c *kit.Ctx) {
 	r3 := c.Rule("R3", "transfers read children from the source side", 6)
 	r4 := c.Rule("R4", "child listings agree and cover deleted children", 3)
 	r5 := c.Rule("R5", "point subscriptions forward unchanged to the other side", 4)
+	r6 := c.Rule("R6", "catch-up succeeds only after consulting both instances", 1)
 
 	m := c02Discover(c)
 	m.typeSides(r1)
@@ -1847,5 +1917,6 @@ func runC02(c *kit.Ctx) {
 	m.findCompare()
 	m.checkListings(r4)
 	m.checkForwarding(r5)
+	m.checkBothFetches(r6)
 	c02Tables(m, r2)
 }
